@@ -66,7 +66,7 @@ package client
 //@ immutable Session.inactivityMonitor
 //
 //@ func seekBufferToNextMessage(buffer *bytes.Buffer, msgSize int) (out *bytes.Buffer)
-//@   requires bufOK(buffer) && 0 < msgSize && msgSize <= len(buffer.buf) - buffer.off
+//@   requires bufOK(buffer) && 0 <= msgSize && msgSize <= len(buffer.buf) - buffer.off
 //@   modifies buffer.buf, buffer.off, buffer.lastRead
 //@   ensures [same-buffer] out == buffer && bufOK(buffer)
 //@   ensures [consumes-exactly] len(buffer.buf) - buffer.off == old(len(buffer.buf) - buffer.off) - msgSize
@@ -82,9 +82,6 @@ package client
 // declares more than the maximum message size ends the connection with an error as soon as it is seen
 // - whether or not the body has arrived - and nothing of that frame is decoded or delivered; a complete
 // frame is decoded from exactly MessageLength bytes and exactly those bytes are consumed.
-//
-//@ func (*Session) Context() (c context.Context)
-//@   trusted
 //
 //@ func (*Session) Sequence() (n uint64)
 //@   trusted
